@@ -476,6 +476,10 @@ def extract_file(path):
     stem = os.path.splitext(os.path.basename(path))[0]
     hdrs = [h for h in header_list() if os.path.splitext(os.path.basename(h))[0] == stem]
     out["header"] = hdrs[0] if hdrs else None
+    # public headers the source file includes (own header first): their constants are
+    # the facts the file's obligations may refer to
+    incs = re.findall(r'#include\s+"(avtp/[^"]+)"', open(path).read())
+    out["includes"] = ([out["header"]] if out["header"] else []) + [i for i in incs if i != out["header"]]
     # tables and statics
     for f, n in tu.top:
         if n.get("kind") == "VarDecl" and f == path:
@@ -560,10 +564,9 @@ def probe_header(h):
     records = []
     for f, n in tu.top:
         if n.get("kind") == "RecordDecl" and n.get("name") and n.get("completeDefinition") and f and "/avtp/" in f:
-            has_payload = any(c.get("kind") == "FieldDecl" and c.get("name") in ("payload", "avtp_payload")
-                              for c in n.get("inner", []))
+            # the trailing zero-length array member (payload, avtp_payload, crf_data, ...)
             pn = [c.get("name") for c in n.get("inner", []) if c.get("kind") == "FieldDecl"
-                  and c.get("name") in ("payload", "avtp_payload")]
+                  and c.get("type", {}).get("qualType", "").endswith("[0]")]
             records.append((n.get("tagUsed", "struct") + " " + n["name"], pn[0] if pn else None))
     enumerators = tu.all_enumerators()
 
